@@ -138,7 +138,8 @@ def make_wrapper(
             This means that those changes can be reverted from this point out.
             """
             self._configurable.commit()
-            object.__setattr__(self, "_reuse_pt", 0)
+            # never reuse a generation; values cached under it may predate later changes
+            object.__setattr__(self, "_reuse_pt", self._reuse_pt + 1)
 
         def changes_count(self):
             """current commit point for the configurable"""
